@@ -53,6 +53,10 @@ func runMaskPageCase(c maskCase) (got []byte, gotKey uint32, in []byte, fail str
 	lo := ps - c.Len
 	if c.Page == "before" {
 		lo = 0
+	} else if c.Align > 0 && c.Align < 8 && c.Len+c.Align <= ps {
+		// "after" with a gap of Align bytes between the buffer's end and the inaccessible page: start addresses that are not
+		// multiples of 8 for every length, and still nothing but the gap between a runaway loop and a fault that is caught
+		lo = ps - c.Len - c.Align
 	}
 	buf := page[lo : lo+c.Len : lo+c.Len]
 	in = append([]byte(nil), buf...)
